@@ -186,6 +186,13 @@ def battery(focus=None):
                    ('rotate', A), ('flush',), ('major_compact', A), ('check',)]
     P['manual-persist'] = [('ks', A, 'manual=1'), ('insert', A, k1, '31'), ('insert', A, k2, '32'), ('clear', A), ('check',), ('insert', A, k3, '33'), ('remove', A, k3),
                            ('insert', A, k4, '34'), ('check',), ('batch', [('insert', A, k1, '35'), ('remove', A, k4)]), ('check',)]
+    # one large batch over two keyspaces in which keys are written many times: the last write of the batch must win
+    big = []
+    for i in range(16):
+        big += [('insert', A, k1, '%02x' % (0x30 + i)), ('insert', B, k3, '%02x' % (0x50 + i)), ('insert', A, k2, '%02x' % (0x60 + i)), ('insert', B, k1, '%02x' % (0x70 + i)), ('remove', A, k3)]
+        if i % 2 == 0:
+            big.append(('insert', A, k3, '%02x' % (0x20 + i)))
+    P['batch-repeated-keys'] = [('ks', A), ('ks', B), ('batch', big), ('check',), ('rotate', A), ('flush',), ('check',)]
     P['three-keys'] = [('ks', A), ('insert', A, k1, '31'), ('insert', A, k2, '32'), ('insert', A, k3, '33'), ('check',), ('batch', [('remove', A, k2), ('insert', A, k4, '')]), ('check',),
                        ('rotate', A), ('flush',), ('check',)]
     P['two-ks'] = [('ks', A), ('ks', B), ('insert', A, k1, '31'), ('insert', B, k1, '41'), ('remove', A, k1), ('check',), ('clear', B), ('check',),
